@@ -180,13 +180,14 @@ for k, fs, lab in [("bool_u8_i8", ["deserialize_bool", "deserialize_u8", "deseri
                    ("i64", ["deserialize_i64"], "complete"), ("i128", ["deserialize_i128"], "complete"),
                    ("floats", ["deserialize_f32", "deserialize_f64"], "complete"),
                    ("option", ["deserialize_option"], "complete"),
-                   ("str_bytes", ["deserialize_str", "deserialize_bytes"], "bounded(input<=5 bytes)"),
-                   ("char", ["deserialize_char"], "bounded(input<=6 bytes; a char needs at most 5)"),
+                   ("bytes", ["deserialize_bytes"], "bounded(input<=5 bytes)"),
+                   ("str", ["deserialize_str"], "bounded(input<=4 bytes, single-byte length prefix)"),
+                   ("char", ["deserialize_char"], "bounded(input<=6 bytes, single-byte length prefix; a char needs at most 5)"),
                    ("enum", ["deserialize_enum", "EnumAccess::variant_seed", "VariantAccess::*"], "bounded(input<=7 bytes; probe enum needs at most 7)")]:
     K("C03.K.dec." + k, C03M, "verif_c03::dec_" + k, {"C03": "D"}, label=lab, needs=(REF, PROBES), fns=[DES + f for f in fs] + ["postcard::take_from_bytes"],
       note="take_from_bytes on EVERY byte string up to the stated length: accept/reject, value, remainder, error kind == reference decoder")
 K("C03.K.dec.char_accepts_valid", C03M, "verif_c03::dec_char_accepts_valid", {"C03": "D"}, needs=(REF, PROBES), fns=[DES + "deserialize_char"],
-  note="every 1- and 2-byte scalar's encoding (+ any tail byte) is accepted and returns that scalar")
+  note="every scalar's encoding (+ any tail byte) is accepted and returns that scalar")
 for k, tier in [("enum", "quick"), ("tuple", "quick"), ("i64", "quick"), ("option", "quick"), ("struct", "thorough")]:
     K("C03.K.prefix_eof." + k, C03M, "verif_c03::prefix_eof_" + k, {"C03": "D"}, needs=(REF, PROBES), tier=tier,
       fns=["postcard::take_from_bytes"], note="every strict prefix of every valid message of the probe type fails with DeserializeUnexpectedEnd")
@@ -316,3 +317,71 @@ K("C11.K.from_io", C11M, "verif_c11::from_io_two_messages", {"C11": "D"}, needs=
 K("C11.K.to_io", C11M, "verif_c11::to_io_partial_writes", {"C11": "D"}, needs=(REF, PROBES), label="bounded(encoding<=4 bytes)",
   fns=["postcard::to_io", "postcard::ser::flavors::io::WriteFlavor::try_push", "postcard::ser::flavors::io::WriteFlavor::try_extend", "postcard::ser::flavors::io::WriteFlavor::finalize"],
   note="writer accepting nondeterministic partial writes receives exactly plain(v), flushed once; failing writer => Err, never a panic")
+
+# ---------------------------------------------------------------- zig-zag, Route V (bit_vector proofs, all widths)
+for s in SW:
+    V("C02.V.zz.enc_" + s, "zigzag", "zig_zag_" + s, {"C02": "D", "C01": "S"}, fns=["postcard::ser::serializer::zig_zag_" + s], witness="C02.K.zz.enc_" + s,
+      note="zig_zag(n) == (n >= 0 ? 2n : -2n-1) as mathematical integers, for every n")
+    V("C03.V.zz.dec_" + s, "zigzag", "de_zig_zag_" + s, {"C03": "D", "C01": "S"}, fns=["postcard::de::deserializer::de_zig_zag_" + s], witness="C03.K.zz.dec_" + s,
+      note="de_zig_zag(u) == (u even ? u/2 : -(u/2)-1), for every u")
+    V("C01.V.zz.roundtrip_" + s, "zigzag", "roundtrip_" + s, {"C01": "D"}, kind="L",
+      note="de_zig_zag(zig_zag(n)) == n for every n: exec composition verified from the two contracts only")
+
+# ---------------------------------------------------------------- postcard-dyn private varint / zig-zag copies, Route V
+for w in W:
+    V("C17.V.dyn.varint.varint_" + w, "dynvarint", "varint_" + w, {"C17": "D", "C18": "D"}, fns=["postcard_dyn::ser::varint::varint_" + w],
+      note="postcard-dyn's copy of the writer satisfies the SAME contract (r@ == enc(n)) as postcard's => both codecs emit identical varints; no panic / overflow")
+V("C17.V.dyn.varint_max", "dynvarint", "varint_max", {"C17": "S"}, fns=["postcard_dyn::ser::varint::varint_max"])
+for s in SW:
+    V("C17.V.dyn.zz.enc_" + s, "dynvarint", "zig_zag_" + s, {"C17": "D", "C18": "D"}, fns=["postcard_dyn::ser::varint::zig_zag_" + s],
+      note="postcard-dyn's zig-zag (a different formula: (n<<1)^(n>>bits-1)) equals the wire-format definition, hence postcard's")
+
+# ---------------------------------------------------------------- postcard-dyn leaf arms (C17 / C18, partial)
+DYN = dict(pkg="postcard-dyn", features="", needs=())
+DD = "postcard-dyn/src/de.rs::verif_dynde"
+DS = "postcard-dyn/src/ser.rs::verif_dynser"
+for k in ["u8", "u16", "u32", "u64", "usize", "i8", "i16", "i32", "i64", "isize", "bool"]:
+    K("C17.K.dyn.de_leaf." + k, DD, "verif_dynde::leaf_" + k, {"C17": "D"}, fns=["postcard_dyn::de::deserialize (leaf arm %s)" % k, "postcard_dyn::de::varint::try_take_varint_*", "postcard_dyn::de::varint::de_zig_zag_*"],
+      note="dynamic decode == static decode (value as JSON number, bytes consumed, accept/reject) on EVERY byte string up to max+1", **DYN)
+for k in ["u8", "u16", "u32", "u64", "i8", "i16", "i32", "i64", "bool"]:
+    K("C17.K.dyn.ser_leaf." + k, DS, "verif_dynser::leaf_" + k, {"C17": "D"}, fns=["postcard_dyn::ser::ser_named_type (leaf arm %s)" % k],
+      note="to_stdvec_dyn(kind, json(v)) == static encoding of v for EVERY v", **DYN)
+K("C17.K.dyn.take_ext", DD, "verif_dynde::take_ext", {"C17": "S", "C18": "D"}, fns=["postcard_dyn::de::TakeExt::take_one", "postcard_dyn::de::TakeExt::take_n"],
+  note="bounds-checked, split exactly", **DYN)
+for k, lab in [("numeric_leaves", "complete (input <= 20 >= longest varint)"), ("floats", "complete"), ("char", "bounded(input<=3)"), ("schema", "bounded(input<=3)")]:
+    K("C18.K.dyn.de_total." + k, DD, "verif_dynde::total_" + k, {"C18": "D"}, label=lab if lab.startswith("bounded") else "complete",
+      fns=["postcard_dyn::from_slice_dyn", "postcard_dyn::de::deserialize (leaf arms)"], note="from_slice_dyn on every byte string: a value or an error, never a panic / overflow / OOB", **DYN)
+K("C18.K.dyn.ser_total.leaves", DS, "verif_dynser::total_leaves", {"C18": "D"}, fns=["postcard_dyn::ser::ser_named_type (leaf arms)"],
+  note="every numeric/bool/unit leaf kind x symbolic leaf JSON (null / bool / any u64 / any i64): result or error, never a panic", **DYN)
+K("C18.K.dyn.ser_total.schema", DS, "verif_dynser::total_schema", {"C18": "D"}, fns=["postcard_dyn::ser::ser_named_type (Schema arm)"],
+  note="to_stdvec_dyn(Schema, _) returns instead of panicking", **DYN)
+
+# ---------------------------------------------------------------- postcard-schema: C14 (Schema vs Serialize), C16 witness
+SCH = dict(pkg="postcard-schema", features="use-std,derive,heapless-v0_7", needs=())
+C14M = "postcard-schema/src/lib.rs::verif_c14"
+SCAL = ["bool", "u8", "i8", "u16", "i16", "u32", "i32", "u64", "i64", "u128", "i128", "f32", "f64", "char", "unit",
+        "nz_u8", "nz_i8", "nz_u16", "nz_i16", "nz_u32", "nz_i32", "nz_u64", "nz_i64", "nz_u128", "nz_i128"]
+for k in SCAL:
+    K("C14.K.builtin." + k, C14M, "verif_c14::b_" + k, {"C14": "D"}, fns=["postcard_schema::impls::builtins_nostd::<impl Schema for %s>" % k],
+      note="events(v) (recording serde::Serializer) conform to T::SCHEMA for EVERY value", **SCH)
+K("C14.K.builtin.generic_shapes", C14M, "verif_c14::b_generic_shapes", {"C14": "D"},
+  fns=["postcard_schema::impls::builtins_nostd::<impl Schema for Option<T>, Result<T,E>, &T, tuples 1-6, [T;N]>"],
+  note="generic impls instantiated with opaque marker element types (distinct leaf schemas) standing for any T", **SCH)
+K("C14.K.builtin.ranges", C14M, "verif_c14::b_ranges", {"C14": "D"}, fns=["postcard_schema::impls::builtins_nostd::<impl Schema for Range, RangeInclusive, RangeFrom, RangeTo>"],
+  note="field names and order of the range structs", **SCH)
+K("C14.K.builtin.str_slices", C14M, "verif_c14::b_str_slices", {"C14": "D"}, label="bounded(len<=2)",
+  fns=["postcard_schema::impls::<impl Schema for str, [T], heapless::Vec, heapless::String>"], **SCH)
+K("C14.K.builtin.key", C14M, "verif_c14::b_key", {"C14": "D"}, fns=["postcard_schema::key::<impl Schema for Key>"], **SCH)
+K("C14.K.derive.structs", C14M, "verif_c14::d_structs", {"C14": "D"}, label="bounded(corpus)", fns=["postcard_derive::schema (derive output)"],
+  note="#[derive(Schema, Serialize)] corpus: unit, newtype, tuple, named, generic, lifetime structs; bounded stand-in, not counted as proved", **SCH)
+K("C14.K.derive.enum", C14M, "verif_c14::d_enum", {"C14": "D"}, label="bounded(corpus)", fns=["postcard_derive::schema (derive output)"],
+  note="derive corpus: enum with unit / newtype / tuple / struct variants, symbolic payloads", **SCH)
+C16W = "postcard-schema/src/key/hash.rs::verif_c16"
+for k in ["leaves", "nest", "structs", "enum"]:
+    K("C16.K.hash.witness." + k, C16W, "verif_c16::witness_" + k, {"C16": "D"}, label="bounded(corpus tree)",
+      fns=[HS + "fnv1a64::hash_ty_path", HS + "fnv1a64_owned::hash_ty_path_owned", "postcard_schema::schema::owned::<impl From<&DataModelType> for OwnedDataModelType>"],
+      note="compile-time key == run-time key == FNV-1a(path ++ reference tag stream).to_le_bytes() on a corpus tree covering every tag of this class; gives concrete failing trees; discharges the dropped to_le_bytes (D3') and the T::SCHEMA stub (D10)", **SCH)
+# the witness stands behind every V obligation of the hashers
+for o in OBLIGATIONS:
+    if o["id"].startswith("C16.V.hash.") and not o.get("witness"):
+        o["witness"] = "C16.K.hash.witness.*"
